@@ -17,7 +17,79 @@ const PINNED_BASIS: [u16; 16] = [
     0xFDB8, 0xFB34, 0xFF38, 0x991E,
 ];
 
+/// Validation of the third translator: the codec bodies as translated from today's source
+/// (`Gen/SrcCodec.lean`: operation programs) are interpreted by `srccodec` with the model's primitives on one
+/// symbol lane and must produce the implementation's recovery symbols (encoders) and the original symbols
+/// (decoders) for random configurations, data and loss patterns.
+pub fn src_codec_tie(ctx: &mut Ctx) {
+    let exe = std::path::Path::new(&ctx.model_path).with_file_name("srccodec");
+    if !exe.exists() {
+        ctx.unavailable.push("srccodec not built: the translated codec bodies were not run against the implementation".into());
+        return;
+    }
+    let sym = |b: &[u8]| (b[0] as usize) | ((b[1] as usize) << 8);
+    let n = if ctx.thorough() { 1200 } else { 160 };
+    let mut q: Vec<String> = vec![];
+    let mut want: Vec<(String, Vec<(usize, usize)>)> = vec![]; // (description, (index in answer, expected symbol))
+    for i in 0..n {
+        let kind = if i % 2 == 0 { "high" } else { "low" };
+        let (_, k, r) = gen_counts(&mut ctx.rng, 64, &[kind]);
+        let engine = *ctx.rng.pick(&["naive", "nosimd"]);
+        let sched = if engine == "naive" { "naive" } else { "two" };
+        let cfg = Cfg { kind: kind.into(), engine: engine.into(), k, r, sb: 2 };
+        let originals: Vec<Vec<u8>> = (0..k).map(|_| ctx.rng.bytes(2)).collect();
+        let Some(rec) = encode_impl(&cfg, &originals) else { continue };
+        let high = kind == "high";
+        let (kp, rp) = (npow2(k), npow2(r));
+        // encoder
+        let wc = if high { k.next_multiple_of(rp) } else { r.next_multiple_of(kp) };
+        let mut mem = vec![0usize; wc];
+        for (j, o) in originals.iter().enumerate() { mem[j] = sym(o); }
+        q.push(format!("K enc {} {} {} {} {}", kind, sched, k, r, mem.iter().map(|x| x.to_string()).collect::<Vec<_>>().join(",")));
+        want.push((format!("encode {} {}:{} ({})", kind, k, r, engine), rec.iter().enumerate().map(|(j, x)| (j, sym(x))).collect()));
+        // decoder
+        let (go, gr, _) = gen_received(&mut ctx.rng, k, r);
+        if go.len() == k { continue; }
+        let (ob, rb, dwc) = if high { (rp, 0, npow2(rp + k)) } else { (0, kp, npow2(kp + r)) };
+        let mut dm = vec![0usize; dwc];
+        let mut bits = vec!['0'; dwc];
+        for j in &go { dm[ob + j] = sym(&originals[*j]); bits[ob + j] = '1'; }
+        for j in &gr { dm[rb + j] = sym(&rec[*j]); bits[rb + j] = '1'; }
+        // stale garbage where nothing was received
+        for (p, b) in bits.iter().enumerate() { if *b == '0' { dm[p] = ctx.rng.below(65536); } }
+        q.push(format!("K dec {} {} {} {} {} {}", kind, sched, k, r, bits.iter().collect::<String>(), dm.iter().map(|x| x.to_string()).collect::<Vec<_>>().join(",")));
+        want.push((format!("decode {} {}:{} ({}) given originals {:?} recovery {:?}", kind, k, r, engine, go, gr),
+                   (0..k).filter(|j| !go.contains(j)).map(|j| (ob + j, sym(&originals[j]))).collect()));
+        ctx.count("src_codec_tie", kind);
+    }
+    let path = exe.to_string_lossy().to_string();
+    let chunks: Vec<Vec<String>> = q.chunks((q.len() + 13) / 14).map(|c| c.to_vec()).collect();
+    let handles: Vec<_> = chunks.into_iter().map(|c| { let p = path.clone(); std::thread::spawn(move || crate::ctx::model_eval_at(&p, &c)) }).collect();
+    let mut ans = vec![];
+    for h in handles {
+        match h.join().unwrap() {
+            Ok(a) => ans.extend(a),
+            Err(e) => { ctx.model_fail(format!("srccodec could not be run: {}", e), &Case::new("src-codec-tie"), None); return; }
+        }
+    }
+    let mut bad = 0;
+    for ((l, a), (desc, exp)) in q.iter().zip(ans.iter()).zip(want.iter()) {
+        let got: Vec<usize> = a.trim_start_matches("ok ").split(',').filter_map(|x| x.parse().ok()).collect();
+        let ok = a.starts_with("ok ") && exp.iter().all(|(idx, v)| got.get(*idx) == Some(v));
+        if !ok {
+            bad += 1;
+            if bad <= 5 {
+                let c = Case { name: "src-codec-tie".into(), lines: vec![l.clone()], with_model: false };
+                ctx.model_fail(format!("translated codec body disagrees with the implementation: {} -> `{}`", desc, crate::ctx::short(a)), &c, None);
+            }
+        }
+    }
+    ctx.bump("translated_codec_bodies_vs_implementation", q.len());
+    ctx.model_lines += q.len();
+}
+
 pub fn run(ctx: &mut Ctx) {
+    src_codec_tie(ctx);
     // (iv) published constants
     let dummy = Case::new("constants");
     if reed_solomon_simd::engine::GF_POLYNOMIAL != PINNED_POLY
@@ -49,7 +121,7 @@ pub fn run(ctx: &mut Ctx) {
         let max_work = if big { 1024 } else { *ctx.rng.pick(&[8usize, 16, 32, 64, 128]) };
         let sizes: &[usize] = if max_work > 64 { &[2, 4, 64] } else { &SMALL_SIZES };
         let cfg = if limit {
-            let small = *ctx.rng.pick(&[1usize, 2, 3, 4, 7, 8, 200]);
+            let small = *ctx.rng.pick(&[1usize, 2, 3, 4, 5, 7, 8]);
             let large = 65536 - npow2(small) - ctx.rng.below(2);
             let high = (i - n) % 2 == 0;
             ctx.count("limit", if high { "high" } else { "low" });
